@@ -36,3 +36,9 @@ chk("C08","chainsim","exploration",
 chk("C05","chainsim","exploration",
  "Seeded one-to-many traffic (2-4 children over one or two destination chains, any begin/report order, failing child at any position, group timeouts, duplicate/late/undeclared reports, interleaved groups) checked after every block against a reference group model: global and child statuses from the stored group record, roll-back notifications from the block's multi-transaction and timeout sets.",
  CN, "deterministic simulation: seeded group histories vs reference all-or-nothing model", "DESIGN.md §5 C05")
+chk("C15","chainsim","exploration",
+ "Seeded governance histories (lifecycle operations by right and wrong roles, votes approve/reject/garbage by admins, non-admins, repeated, on finished/unknown proposals; 1-4 administrators; five strategy expressions) with an independent tally of accepted votes compared with GetProposal after every block, strategy re-evaluated by the harness, and finality of concluded proposals.",
+ CN+" All generated administrators are genesis (weight-2) administrators, so the super-administrator clause is only exercised in its trivial form; electorate changes while a proposal is open (role freeze/registration) are not generated yet.", "deterministic simulation: seeded governance histories vs independent vote tally", "DESIGN.md §5 C15")
+chk("C16","chainsim","exploration",
+ "Seeded interleavings of lifecycle operations/votes on appchains and services with IBTP traffic; statuses observed through the contracts' queries after every block and checked against the statement: cause for every status change, absorbing logout, cascade from the appchain to its services, and gating of requests by source/destination status.",
+ CN+" Rules, roles and nodes are not cycled through their lifecycles yet (appchains and services are); restarts between blocks (cached vs stored service records) are covered by C01's replicas.", "deterministic simulation: seeded lifecycle/traffic interleavings vs statement-level gating and lifecycle oracle", "DESIGN.md §5 C16")
